@@ -20,7 +20,7 @@ vars == <<ks, pl>>
 A == <<97>>
 B == <<98>>
 Gone == <<103, 111, 110, 101>>
-Strs == {A, B, Gone}
+Strs == {A, B, Gone, <<>>}      \* the empty string takes an id like any other
 Kinds == {"dstr", "str"}
 Placements == {"stream", "tuple", "vec", "v0", "evoPlain", "evoGone", "evoTrans", "vec2"}
 Patterns == UNION {[1..n -> Kinds] : n \in 1..MaxW}
